@@ -31,3 +31,34 @@ Example C05_example :
      [{| r_val := 30; r_pv0 := Some 9; r_stop := false |}; {| r_val := 12; r_pv0 := Some 5; r_stop := false |}] [] [false]
   = Some (Some 5, [ECall 1 (- INF) INF; EInfo 1 30 (Some 9); ECall 2 (- INF) INF; EInfo 2 12 (Some 5)]).
 Proof. vm_compute. reflexivity. Qed.
+
+(* ---- every principal variation is a legal line ---- *)
+From CV Require Import Chess.Rules Engine.SearchNode Engine.SearchNodeProofs.
+
+(* Model of the node recursion (Search::search / quiescence_search) in which EVERY value-dependent decision - stop and
+   limit polls, draw exits, depth, table hits and the table's moves (adversarial entries included), null-move pruning,
+   skipped moves, re-searches, alpha raises, cut-offs - is taken by an arbitrary oracle.  Whatever the oracle does, at
+   the exit of every call the pv in the call's slot is a legal line from the call's position (in particular the root
+   pv that is printed and whose head becomes the bestmove), and the call never touches the slots below it.
+   [gen] is the generated move list; its legality is C01. *)
+Theorem C05_pv_legal :
+  forall (orc : nat -> nat) (gen : position -> nat -> list move),
+    (forall p ply m, In m (gen p ply) -> legal p m = true) ->
+    forall fuel pos ply st,
+      legal_line pos (fst (search orc gen fuel pos ply st) ply) = true /\
+      (forall j, (j < ply)%nat -> fst (search orc gen fuel pos ply st) j = fst st j).
+Proof. intros orc gen H fuel pos ply st. apply (search_ok orc gen H fuel pos ply st). Qed.
+Print Assumptions C05_pv_legal.
+
+Theorem C05_quiescence_pv_legal :
+  forall (orc : nat -> nat) (gen : position -> nat -> list move),
+    (forall p ply m, In m (gen p ply) -> legal p m = true) ->
+    forall fuel pos ply st, legal_line pos (fst (qsearch orc gen fuel pos ply st) ply) = true.
+Proof. intros orc gen H fuel pos ply st. apply (qsearch_ok orc gen H fuel pos ply st). Qed.
+
+(* non-vacuity: an oracle under which a two-move pv is assembled from the start position *)
+Example C05_pv_example :
+  let gen := fun p (_ : nat) => legal_moves p in
+  let orc := fun c : nat => match c with 16 => 1 | 19 => 1 | 20 => 1 | 23 => 1 | 24 => 1 | _ => 0 end%nat in
+  exists m1 m2, fst (search orc gen 3%nat initial_position 0%nat (fun _ => [], 0%nat)) 0%nat = [m1; m2].
+Proof. vm_compute. eexists. eexists. reflexivity. Qed.
